@@ -25,11 +25,11 @@ pub fn test_history(p: &AgentProp, h: &History, st: &mut Stats) -> TestResult {
                 st.nontrivial(digest(h));
                 st.sample("history", 2, || json!({"tcp": h.tcp, "ops": format!("{:?}", h.ops).chars().take(900).collect::<String>(), "summary": sum}));
             }
-            if p.tag == "C05" && digest(h) % 4 == 0 {
+            if matches!(p.tag, "C05" | "C15" | "C18") && digest(h) % 4 == 0 {
                 // second, model-free opinion on one history in four (the same oracle that takes over
                 // when the lock-step model is stopped by another property's discrepancy)
-                st.class("life cycle also judged by the model-free oracle");
-                let r = guard(|| agentsim::lifecycle_plain(h, agentsim::process_origin())).map_err(|pn| Fail::new("c05-panic", format!("the agent panicked: {}", pn)))?;
+                st.class("also judged by the model-free oracle");
+                let r = guard(|| agentsim::plain_oracles(h, agentsim::process_origin(), p.tag)).map_err(|pn| Fail::new(&format!("{}-panic", p.tag.to_lowercase()), format!("the agent panicked: {}", pn)))?;
                 if let Err((sig, msg)) = r {
                     return Err(Fail::new(&sig, msg));
                 }
@@ -44,11 +44,11 @@ pub fn test_history(p: &AgentProp, h: &History, st: &mut Stats) -> TestResult {
             } else {
                 // a discrepancy that another property states: left to that property's check
                 st.class(&format!("history ended by a discrepancy belonging to {} (not judged here)", d.tag));
-                if p.tag == "C05" {
-                    // the lock-step model is of no use past that point; that every accepted request
-                    // ends exactly once is judged without it
-                    st.class("life cycle judged by the model-free oracle");
-                    let r = guard(|| agentsim::lifecycle_plain(h, agentsim::process_origin())).map_err(|pn| Fail::new("c05-panic", format!("the agent panicked: {}", pn)))?;
+                if matches!(p.tag, "C05" | "C15" | "C18") {
+                    // the lock-step model is of no use past that point; this property's statement is
+                    // judged without it, from the agent's own replies
+                    st.class("judged by the model-free oracle");
+                    let r = guard(|| agentsim::plain_oracles(h, agentsim::process_origin(), p.tag)).map_err(|pn| Fail::new(&format!("{}-panic", p.tag.to_lowercase()), format!("the agent panicked: {}", pn)))?;
                     if let Err((sig, msg)) = r {
                         return Err(Fail::new(&sig, msg));
                     }
